@@ -27,3 +27,11 @@ pub fn good_sorted(m: &HashMap<i64, String>) -> Vec<(i64, String)> {
     v.sort_by_key(|x| x.0);
     v
 }
+
+pub fn bad_process_state() -> bool {
+    use std::sync::atomic::{AtomicBool, Ordering};
+    static FIRST: AtomicBool = AtomicBool::new(true);
+    FIRST.swap(false, Ordering::Relaxed)
+}
+
+pub static GOOD_TABLE: [u8; 3] = [1, 2, 3];
